@@ -28,7 +28,7 @@ struct wslot {
 	volatile int tr_n;
 	uint8_t tr_c[MC_MAXD], tr_ar[MC_MAXD], tr_dev[MC_MAXD];
 	struct item pfx;
-	volatile int devs, failed, pruned, cut;
+	volatile int devs, failed, pruned, cut, diverged;
 	char fsig[200], fmsg[700];
 	volatile int nsoft; char ssig[3][200], smsg[3][400];
 	uint64_t outcome;
@@ -37,7 +37,8 @@ struct wslot {
 	volatile int running;	/* an execution is in progress (for crash attribution) */
 	struct item * stack;
 };
-struct mviol { char sig[200]; char msg[700]; uint64_t count; struct item vec; int bound; int crash; };
+#define NALT 3
+struct mviol { char sig[200]; char msg[700]; uint64_t count; struct item vec; int bound; int crash; struct item alt[NALT]; int altbound[NALT]; int nalt; };
 struct mcsh {
 	volatile int lock;
 	volatile int busy, done;
@@ -48,6 +49,7 @@ struct mcsh {
 	char rp_sig[1000]; char rp_msg[700]; volatile int rp_done;
 	struct item sample[4]; volatile int nsample;
 	volatile uint64_t states, table_full;
+	volatile uint64_t diverged, unrepro; char div_msg[300];
 	struct wslot w[NW];
 };
 
@@ -96,6 +98,22 @@ mc_note(const char * fmt, ...)
 	if (o + l + 2 < NOTESZ) { memcpy(SH->notes + o, line, l); SH->notes[o + l] = '\n'; SH->noteslen = o + l + 1; }
 }
 
+/*
+ * The same choice prefix met a different choice point than when it was recorded.  With a deterministic harness that
+ * means state of the code under test survived the teardown between two executions in one process (e.g. a value cached
+ * in a static variable).  The execution is abandoned, the worker is replaced by a fresh process, and the exploration
+ * goes on; mc_explore() turns this into an engine error unless a violation was confirmed in a fresh process anyway
+ * (so the unchanged tree, where no violation exists, can never pass silently with divergences).
+ */
+static void
+diverge_(int i, const char * label, int n, int want, int c)
+{
+	if (noting) mc_note("-- divergence at point %d ('%s'): arity %d, recorded %d, choice %d", i, label, n, want, c);
+	if (__sync_fetch_and_add(&SH->diverged, 1) == 0) snprintf(SH->div_msg, sizeof(SH->div_msg), "point %d ('%s'): arity %d, recorded %d, choice %d", i, label, n, want, c);
+	W->diverged = 1; poisoned = 1; W->cut = 1;
+	longjmp(jb, 3);
+}
+
 static int
 choose_(int n, int isdev, const char * label)
 {
@@ -107,8 +125,7 @@ choose_(int n, int isdev, const char * label)
 	if (i >= MC_MAXD) vf_engine_error("execution exceeds %d choice points at '%s'", MC_MAXD, label);
 	if (i < W->pfx.len) {
 		c = W->pfx.c[i];
-		if (W->pfx.ar[i] != 0 && W->pfx.ar[i] != n) vf_engine_error("replay divergence at point %d ('%s'): arity %d, expected %d", i, label, n, W->pfx.ar[i]);
-		if (c >= n) vf_engine_error("replay divergence at point %d ('%s'): choice %d of %d", i, label, c, n);
+		if ((W->pfx.ar[i] != 0 && W->pfx.ar[i] != n) || c >= n) diverge_(i, label, n, W->pfx.ar[i], c);
 	} else c = 0;
 	W->tr_c[i] = (uint8_t)c; W->tr_ar[i] = (uint8_t)n; W->tr_dev[i] = (uint8_t)isdev;
 	W->tr_n = i + 1;
@@ -195,11 +212,20 @@ record_violation(const char * sig, const char * msg, int crash)
 {
 	int i;
 	lock();
-	for (i = 0; i < SH->nv; i++) if (!strcmp(SH->v[i].sig, sig)) { SH->v[i].count++; unlock(); return; }
+	for (i = 0; i < SH->nv; i++) if (!strcmp(SH->v[i].sig, sig)) {
+		struct mviol * v = &SH->v[i];
+		v->count++;
+		if (v->nalt < NALT && W->tr_n >= W->pfx.len) {	/* further executions with the same signature: tried if the first does not reproduce */
+			struct item * a = &v->alt[v->nalt];
+			a->len = (uint16_t)W->tr_n; memcpy(a->c, W->tr_c, (size_t)W->tr_n); memcpy(a->ar, W->tr_ar, (size_t)W->tr_n);
+			v->altbound[v->nalt] = cur_bound; v->nalt++;
+		}
+		unlock(); return;
+	}
 	if (i < NV) {
 		struct mviol * v = &SH->v[i];
 		snprintf(v->sig, sizeof(v->sig), "%s", sig); snprintf(v->msg, sizeof(v->msg), "%s", msg);
-		v->count = 1; v->bound = cur_bound; v->crash = crash;
+		v->count = 1; v->bound = cur_bound; v->crash = crash; v->nalt = 0;
 		v->vec.len = (uint16_t)W->tr_n; memcpy(v->vec.c, W->tr_c, (size_t)W->tr_n); memcpy(v->vec.ar, W->tr_ar, (size_t)W->tr_n);
 		/* a crash may happen before the replayed prefix was consumed */
 		if (W->tr_n < W->pfx.len) v->vec = W->pfx;
@@ -227,7 +253,7 @@ static void
 exec_reset(const struct item * it)
 {
 	W->pfx = *it;
-	W->tr_n = 0; W->devs = 0; W->failed = 0; W->pruned = 0; W->cut = 0; W->outcome = 0;
+	W->tr_n = 0; W->devs = 0; W->failed = 0; W->pruned = 0; W->cut = 0; W->diverged = 0; W->outcome = 0;
 	W->fsig[0] = 0; W->fmsg[0] = 0; W->nsoft = 0;
 }
 static void
@@ -318,7 +344,10 @@ worker(int slot, int resume)
 		if (errfd >= 0 && !CFG->fork_mode) { if (ftruncate(errfd, 0)) {} lseek(errfd, 0, SEEK_SET); }
 		if (CFG->fork_mode) run_forked(slot); else run_inproc();
 		l_execs++; l_points += (uint64_t)W->tr_n; if ((uint64_t)W->tr_n > l_maxdepth) l_maxdepth = (uint64_t)W->tr_n;
-		if (W->tr_n < it.len && !W->pruned && !W->cut && !W->failed) vf_engine_error("execution ended after %d choice points but its prefix has %d", W->tr_n, it.len);
+		if (W->tr_n < it.len && !W->pruned && !W->cut && !W->failed) {	/* ended before its recorded prefix was used up: divergence as well */
+			if (__sync_fetch_and_add(&SH->diverged, 1) == 0) snprintf(SH->div_msg, sizeof(SH->div_msg), "execution ended after %d choice points but its prefix has %d", W->tr_n, it.len);
+			W->diverged = 1; poisoned = 1; W->cut = 1;
+		}
 		if (W->tr_n >= it.len) l_newpoints += (uint64_t)(W->tr_n - it.len) + (it.len ? 1 : 0);
 		if (W->pruned) l_pruned++; else if (W->cut) l_cut++; else l_complete++;
 		{ int si; for (si = 0; si < W->nsoft; si++) record_violation(W->ssig[si], W->smsg[si], 0); }
@@ -330,7 +359,7 @@ worker(int slot, int resume)
 				lock(); if (SH->nsample < 3) { struct item * s = &SH->sample[SH->nsample++]; s->len = (uint16_t)W->tr_n; memcpy(s->c, W->tr_c, (size_t)W->tr_n); memcpy(s->ar, W->tr_ar, (size_t)W->tr_n); } unlock();
 			}
 		}
-		push_alternatives(&it);
+		if (!W->diverged) push_alternatives(&it);
 		/* share work */
 		if (SH->gq_n < vf_workers && W->sp - W->bot > 1) {
 			lock();
@@ -401,22 +430,36 @@ notes_json(char * out, size_t n)
 static void
 verify_and_publish(void)
 {
-	int i; static char rj[16000], cj[4000], nj[11000], text[8192]; char sig[200];
+	int i, published = 0; static char rj[16000], cj[4000], nj[11000], text[8192], unrepro_msg[700]; char sig[200], k[96];
 	for (i = 0; i < SH->nv; i++) {
-		struct mviol * v = &SH->v[i]; struct rp r; int st;
-		r.it = &v->vec; cur_bound = v->bound;
-		st = vf_run_isolated(replay_child, &r, sig, sizeof(sig), text, sizeof(text));
-		(void)st;
-		{
-			char all[1300], want[220]; 
+		struct mviol * v = &SH->v[i]; struct rp r; int st, cand, ok = 0; const struct item * used = &v->vec; char all[1300], want[220];
+		for (cand = -1; cand < v->nalt && !ok; cand++) {
+			used = cand < 0 ? &v->vec : &v->alt[cand];
+			r.it = used; cur_bound = cand < 0 ? v->bound : v->altbound[cand];
+			st = vf_run_isolated(replay_child, &r, sig, sizeof(sig), text, sizeof(text));
+			(void)st;
 			snprintf(all, sizeof(all), "\n%s\n%s", sig, SH->rp_sig); snprintf(want, sizeof(want), "\n%s\n", v->sig);
-			if (strstr(all, want) == NULL)
-				vf_engine_error("violation '%s' did not reproduce in a fresh process (got '%s'): harness nondeterminism or state leaking between executions", v->sig, all);
+			if (strstr(all, want) != NULL) { ok = 1; v->bound = cur_bound; }
 		}
-		choices_json(cj, sizeof(cj), &v->vec); notes_json(nj, sizeof(nj));
+		if (!ok) {	/* seen only in a process that had run other executions before: not reported, but never ignored (see below) */
+			if (SH->unrepro++ == 0) snprintf(unrepro_msg, sizeof(unrepro_msg), "violation '%s' did not reproduce in a fresh process (got '%.300s')", v->sig, all);
+			continue;
+		}
+		published++;
+		choices_json(cj, sizeof(cj), used); notes_json(nj, sizeof(nj));
 		snprintf(rj, sizeof(rj), "{\"mc\":\"%s\",\"args\":%s,\"bound\":%d,\"choices\":%s,\"trace\":%s}", CFG->name, CFG->args_json ? CFG->args_json : "[]", v->bound, cj, nj);
 		vf_violation(v->sig, rj, "%s", v->msg);
 		{ uint64_t k; for (k = 1; k < v->count; k++) vf_violation(v->sig, NULL, "dup"); }
+	}
+	if (SH->diverged || SH->unrepro) {
+		/* behaviour depended on earlier executions in the same process.  Harmless to the verdict only if a violation was confirmed in a fresh process. */
+		if (published == 0)
+			vf_engine_error("%llu replay divergence(s) (first: %s), %llu unreproducible violation(s) (%s): harness nondeterminism or state leaking between executions, and nothing was confirmed in a fresh process",
+			    (unsigned long long)SH->diverged, SH->diverged ? SH->div_msg : "-", (unsigned long long)SH->unrepro, SH->unrepro ? unrepro_msg : "-");
+		vf_info("state_leak", "%llu executions diverged from their recorded prefix (first: %s) and %llu violation signatures were seen only in used processes: the code under test keeps state across the harness's teardown; reported violations were all confirmed in a fresh process",
+		    (unsigned long long)SH->diverged, SH->diverged ? SH->div_msg : "-", (unsigned long long)SH->unrepro);
+		cname(k, sizeof(k), "diverged_executions"); vf_count(k, SH->diverged);
+		cname(k, sizeof(k), "exhaustive"); vf_count(k, 0);	/* stays 0: see mc_explore */
 	}
 	for (i = 0; i < SH->nsample; i++) {
 		struct rp r; r.it = &SH->sample[i]; cur_bound = CFG->dev_bound;
@@ -486,7 +529,7 @@ mc_explore(struct mc_config * cfg)
 	}
 	cname(k, sizeof(k), "bound_completed"); vf_count(k, 0); if (completed >= 0) vf_setmax(k, (uint64_t)completed);
 	cname(k, sizeof(k), "bound_target"); vf_setmax(k, (uint64_t)cfg->dev_bound);
-	cname(k, sizeof(k), "exhaustive"); vf_count(k, 0); if (completed == cfg->dev_bound && !SH->table_full) vf_setmax(k, 1);
+	cname(k, sizeof(k), "exhaustive"); vf_count(k, 0); if (completed == cfg->dev_bound && !SH->table_full && !SH->diverged) vf_setmax(k, 1);
 	cname(k, sizeof(k), "states"); vf_setmax(k, SH->states);
 	cname(k, sizeof(k), "table_full"); vf_setmax(k, SH->table_full);
 	verify_and_publish();
@@ -507,7 +550,8 @@ mc_replay(struct mc_config * cfg, const char * csv, int bound)
 	printf("REPLAY %s bound=%d choices=%s\n", cfg->name, bound, csv);
 	if (cfg->fork_mode) { in_exec = 1; if (setjmp(jb) == 0) cfg->body(); in_exec = 0; }
 	else run_inproc();
-	if (W->failed) printf("REPLAY-RESULT: VIOLATION %s: %s\n", W->fsig, W->fmsg);
+	if (W->diverged) printf("REPLAY-RESULT: DIVERGED (%s): the recorded choices do not fit this build of the code under test\n", SH->div_msg);
+	else if (W->failed) printf("REPLAY-RESULT: VIOLATION %s: %s\n", W->fsig, W->fmsg);
 	else printf("REPLAY-RESULT: ok\n");
 	return W->failed ? 1 : 0;
 }
